@@ -22,8 +22,17 @@ fn run_one(log: &mut Log, tag: &str, algo: &str, p: &[u8], texts: &[Vec<u8>]) {
     let mut m: Option<M> = None;
     log.call("new", json!({}), || {
         m = Some(match algo {
-            "shiftand" => M::SA(ShiftAnd::new(p)),
-            "bndm" => M::BN(BNDM::new(p)),
+            // the pattern by reference, by value, or through a reversed-twice iterator (all ExactSize)
+            "shiftand" => M::SA(match p.len() % 3 {
+                0 => ShiftAnd::new(p),
+                1 => ShiftAnd::new(p.iter().cloned()),
+                _ => ShiftAnd::new(p.iter().rev().rev()),
+            }),
+            "bndm" => M::BN(match p.len() % 3 {
+                0 => BNDM::new(p),
+                1 => BNDM::new(p.iter().cloned()),
+                _ => BNDM::new(p.to_vec()),
+            }),
             "bom" => M::BO(BOM::new(p)),
             "horspool" => M::HO(Horspool::new(p)),
             _ => M::KM(KMP::new(p)),
@@ -87,6 +96,8 @@ fn run_one(log: &mut Log, tag: &str, algo: &str, p: &[u8], texts: &[Vec<u8>]) {
         }
         log.call("find_all", json!({"t": bytes(t)}), || {
             let v: Vec<usize> = match &m {
+                M::SA(x) if ti % 2 == 1 => x.find_all(t.iter().cloned()).collect(), // items by value
+                M::KM(x) if ti % 2 == 1 => x.find_all(t.iter().cloned()).collect(),
                 M::SA(x) => x.find_all(t.iter()).collect(),
                 M::BN(x) => x.find_all(t).collect(),
                 M::BO(x) => x.find_all(t).collect(),
